@@ -157,7 +157,12 @@ fn g_vec_u8(r: &mut Rng, big: usize) -> Vec<u8> {
     let mode = r.below(4);
     (0..n).map(|i| match mode { 0 => 0, 1 => 0xFF, 2 => (i & 0xFF) as u8, _ => (r.next() & 0xFF) as u8 }).collect()
 }
-fn g_bytes(r: &mut Rng) -> BytesED { g_vec_u8(r, 1500).into() }
+/// byte strings embedded in records: mostly short (the dedicated "bytes" run covers the long ones)
+fn g_bytes(r: &mut Rng) -> BytesED {
+    let n = match r.below(10) { 0 | 1 => 0, 2..=7 => *r.pick(&[1usize, 2, 4, 19, 20, 31, 32, 33, 36, 55, 56, 68]), 8 => r.below(120) as usize, _ => *r.pick(&[255usize, 256, 257, 300]) };
+    let mode = r.below(3);
+    (0..n).map(|i| match mode { 0 => 0u8, 1 => (i & 0xFF) as u8, _ => (r.next() & 0xFF) as u8 }).collect::<Vec<u8>>().into()
+}
 const STRINGS: [&str; 16] = [
     "", "a", "call", "CALL", "create", "execution reverted", "0123456789abcdefi0",
     "\u{7f}", "\u{80}", "\u{7ff}", "\u{800}", "\u{d7ff}\u{e000}", "\u{ffff}", "\u{10000}", "\u{10ffff}", "h\u{e9}llo \u{4e2d}\u{6587} \u{1f600}\u{0}z",
@@ -165,7 +170,7 @@ const STRINGS: [&str; 16] = [
 fn g_string(r: &mut Rng) -> String {
     match r.below(5) {
         0..=2 => r.pick(&STRINGS).to_string(),
-        3 => { let n = *r.pick(&[64usize, 66, 255, 256, 700]); (0..n).map(|i| (b'a' + (i % 26) as u8) as char).collect() }
+        3 => { let n = *r.pick(&[64usize, 66, 66, 66, 255, 256]); (0..n).map(|i| (b'a' + (i % 26) as u8) as char).collect() }
         _ => { let n = r.below(12); (0..n).map(|_| *r.pick(&['x', '\u{e9}', '\u{4e2d}', '\u{1f600}', '0', ' ', '\n'])).collect() }
     }
 }
@@ -260,6 +265,108 @@ fn try_decode<T: Decode + Encode>(buf: &[u8], off: usize) -> (Outcome, Option<T>
     }
 }
 
+// ---------------------------------------------------------------------------------------
+// Derived (possibly corrupted) buffers are decoded in a child process: Vec::<T>::decode calls
+// Vec::with_capacity(length) before reading anything, so a misread length prefix can ask for
+// terabytes and abort the whole process (not a panic, nothing to catch).
+
+fn probe_dispatch(stem: &str, buf: &[u8], off: usize) -> Outcome {
+    type H<V> = BlockHistoryCacheData<V>;
+    match stem {
+        "u8" => try_decode::<u8>(buf, off).0,
+        "u32" => try_decode::<u32>(buf, off).0,
+        "u64" => try_decode::<u64>(buf, off).0,
+        "U8" => try_decode::<U8ED>(buf, off).0,
+        "U64" => try_decode::<U64ED>(buf, off).0,
+        "U128" => try_decode::<U128ED>(buf, off).0,
+        "U256" => try_decode::<U256ED>(buf, off).0,
+        "U512" => try_decode::<U512ED>(buf, off).0,
+        "addr" => try_decode::<AddressED>(buf, off).0,
+        "b256" => try_decode::<B256ED>(buf, off).0,
+        "bloom" => try_decode::<B2048ED>(buf, off).0,
+        "bytes" => try_decode::<BytesED>(buf, off).0,
+        "vecu8" => try_decode::<Vec<u8>>(buf, off).0,
+        "string" => try_decode::<String>(buf, off).0,
+        "optU64" => try_decode::<Option<U64ED>>(buf, off).0,
+        "optaddr" => try_decode::<Option<AddressED>>(buf, off).0,
+        "optstring" => try_decode::<Option<String>>(buf, off).0,
+        "optbytes" => try_decode::<Option<BytesED>>(buf, off).0,
+        "vecb256" => try_decode::<Vec<B256ED>>(buf, off).0,
+        "vecoptstring" => try_decode::<Vec<Option<String>>>(buf, off).0,
+        "addrnonce" => try_decode::<(AddressED, U64ED)>(buf, off).0,
+        "nested" => try_decode::<(String, (Option<U256ED>, Vec<u8>))>(buf, off).0,
+        "account" => try_decode::<AccountInfoED>(buf, off).0,
+        "bytecode" => try_decode::<BytecodeED>(buf, off).0,
+        "log" => try_decode::<LogED>(buf, off).0,
+        "tx" => try_decode::<TxED>(buf, off).0,
+        "receipt" => try_decode::<TxReceiptED>(buf, off).0,
+        "block" => try_decode::<BlockResponseED>(buf, off).0,
+        "trace" => try_decode::<TraceED>(buf, off).0,
+        "concat" => try_decode::<(TxED, (TxReceiptED, TraceED))>(buf, off).0,
+        "histU64" => try_decode::<H<U64ED>>(buf, off).0,
+        "histaccount" => try_decode::<H<AccountInfoED>>(buf, off).0,
+        "histb256" => try_decode::<H<B256ED>>(buf, off).0,
+        "rawblock" => try_decode::<RawBlock>(buf, off).0,
+        _ => panic!("c14-probe: unknown type {}", stem),
+    }
+}
+
+/// `hx c14-probe`: one request per line "<type> <offset> <hex>", one answer per line.
+pub fn probe_main() -> Result<(), Box<dyn std::error::Error>> {
+    use std::io::{BufRead, Write};
+    std::panic::set_hook(Box::new(|_| {}));
+    let stdin = std::io::stdin();
+    let mut out = std::io::stdout();
+    for line in stdin.lock().lines() {
+        let line = line?;
+        let mut it = line.split(' ');
+        let stem = it.next().unwrap_or("");
+        let off: usize = it.next().unwrap_or("0").parse()?;
+        let buf = hex::decode(it.next().unwrap_or(""))?;
+        match probe_dispatch(stem, &buf, off) {
+            Outcome::Ok { end, reenc } => writeln!(out, "0 {} {}", end, hex::encode(reenc))?,
+            Outcome::Err => writeln!(out, "1")?,
+            Outcome::Panic => writeln!(out, "2")?,
+        }
+        out.flush()?;
+    }
+    Ok(())
+}
+
+struct Prober { child: std::process::Child, stdin: std::process::ChildStdin, stdout: std::io::BufReader<std::process::ChildStdout> }
+impl Prober {
+    fn spawn() -> Prober {
+        let exe = std::env::current_exe().expect("current_exe");
+        let mut child = std::process::Command::new("sh")
+            .arg("-c").arg(format!("ulimit -v 4000000; exec '{}' c14-probe", exe.display()))
+            .stdin(std::process::Stdio::piped()).stdout(std::process::Stdio::piped()).stderr(std::process::Stdio::null())
+            .spawn().expect("spawn c14-probe");
+        let stdin = child.stdin.take().unwrap();
+        let stdout = std::io::BufReader::new(child.stdout.take().unwrap());
+        Prober { child, stdin, stdout }
+    }
+    /// None: the decoder took the process down (allocation failure).
+    fn probe(&mut self, stem: &str, buf: &[u8], off: usize) -> Option<Outcome> {
+        use std::io::{BufRead, Write};
+        let sent = writeln!(self.stdin, "{} {} {}", stem, off, hex::encode(buf)).and_then(|_| self.stdin.flush());
+        let mut line = String::new();
+        let got = if sent.is_ok() { self.stdout.read_line(&mut line).unwrap_or(0) } else { 0 };
+        if got == 0 {
+            let _ = self.child.kill(); let _ = self.child.wait();
+            *self = Prober::spawn();
+            return None;
+        }
+        let mut it = line.trim().split(' ');
+        match it.next() {
+            Some("0") => { let end = it.next()?.parse().ok()?; let reenc = hex::decode(it.next().unwrap_or("")).ok()?; Some(Outcome::Ok { end, reenc }) }
+            Some("1") => Some(Outcome::Err),
+            Some("2") => Some(Outcome::Panic),
+            _ => None,
+        }
+    }
+}
+impl Drop for Prober { fn drop(&mut self) { let _ = self.child.kill(); let _ = self.child.wait(); } }
+
 struct Ctx {
     rng: Rng,
     out: std::path::PathBuf,
@@ -273,12 +380,30 @@ struct Ctx {
     next_base: u64,
     samples: Vec<Value>,
     thorough: bool,
+    prober: Prober,
+    aborts: Vec<Value>,
+    n_aborts: u64,
 }
 
 impl Ctx {
     fn count(&mut self, ty: &str, what: &str, n: u64) { *self.per_type.entry(ty.to_string()).or_default().entry(what.to_string()).or_default() += n; }
     fn fail(&mut self, what: String, case: Value) { if self.failures.len() < 200 { self.failures.push(json!({"what": what, "case": case})); } }
     fn base(&mut self) -> u64 { self.next_base += 1_000_000; self.next_base }
+    /// Decode a derived buffer in the child; records an abort and returns None if the process died.
+    fn probe(&mut self, stem: &str, buf: &[u8], off: usize) -> Option<Outcome> {
+        match self.prober.probe(stem, buf, off) {
+            Some(o) => {
+                *self.outcomes.entry(match o { Outcome::Ok { .. } => "decode_ok", Outcome::Err => "decode_err", Outcome::Panic => "decode_panic" }).or_default() += 1;
+                Some(o)
+            }
+            None => {
+                self.n_aborts += 1;
+                *self.outcomes.entry("process_abort_on_allocation").or_default() += 1;
+                if self.aborts.len() < 5 { self.aborts.push(json!({"type": stem, "offset": off, "hex": hex::encode(buf).chars().take(3000).collect::<String>()})); }
+                None
+            }
+        }
+    }
 }
 
 const IMPORTS: &str = "From Brc.Model Require Import Base History Codec Tie14.\nFrom BrcGen Require Import Consts.";
@@ -293,9 +418,11 @@ fn mcase_term(id: u64, buf: &[u8], off: usize, o: &Outcome) -> String {
 /// up front and a misread length of 2^32-1 aborts the process), an offset past the end.
 fn derived_buffers(r: &mut Rng, enc: &[u8], n_trunc: usize, n_mut: usize) -> Vec<(Vec<u8>, usize)> {
     let mut out = Vec::new();
-    if enc.len() > 20_000 { return out; }
     let len = enc.len();
-    let mut cuts: Vec<usize> = vec![0, 1, len.saturating_sub(1), len / 2];
+    if len > 12_000 { return out; }
+    // the case files carry every buffer in full: fewer derived buffers for long encodings
+    let (n_trunc, n_mut, fixed_cuts) = if len <= 300 { (n_trunc, n_mut, true) } else if len <= 1500 { (1, 2, false) } else { (1, 1, false) };
+    let mut cuts: Vec<usize> = if fixed_cuts { vec![0, 1, len.saturating_sub(1), len / 2] } else { vec![len.saturating_sub(1)] };
     for _ in 0..n_trunc { cuts.push(r.below(len as u64 + 1) as usize); }
     cuts.sort(); cuts.dedup();
     for c in cuts { if c < len { out.push((enc[..c].to_vec(), 0)); } }
@@ -307,8 +434,11 @@ fn derived_buffers(r: &mut Rng, enc: &[u8], n_trunc: usize, n_mut: usize) -> Vec
         b[p] ^= *r.pick(&[1u8, 2, 3, 0x80, 0xFF]);
         out.push((b, 0));
     }
-    out.push((enc.to_vec(), len));
-    out.push((enc.to_vec(), len + 1 + r.below(5) as usize));
+    if fixed_cuts {
+        out.push((enc.to_vec(), len));
+        out.push((enc.to_vec(), len + 1 + r.below(5) as usize));
+    }
+    if len > 2 { out.push((enc.to_vec(), 1 + r.below(len as u64 - 1) as usize)); }
     out
 }
 
@@ -321,8 +451,7 @@ fn run_type<T: M>(cx: &mut Ctx, stem: &str, coq_ty: &str, codec: &str, eqb: &str
     let (n_trunc, n_mut, every) = if cx.thorough { (8, 10, 1) } else { (3, 4, 3) };
     let mut mid = base + 500_000;
     let mut handle_buf = |cx: &mut Ctx, mterms: &mut Vec<String>, buf: Vec<u8>, off: usize| {
-        let (o, _) = try_decode::<T>(&buf, off);
-        *cx.outcomes.entry(match o { Outcome::Ok { .. } => "decode_ok", Outcome::Err => "decode_err", Outcome::Panic => "decode_panic" }).or_default() += 1;
+        let Some(o) = cx.probe(stem, &buf, off) else { return; };
         mterms.push(mcase_term(mid, &buf, off, &o));
         cx.jsonl.push_str(&json!({"id": mid, "type": stem, "kind": "buffer", "hex": hex::encode(&buf), "offset": off, "outcome": format!("{:?}", o).chars().take(60).collect::<String>()}).to_string());
         cx.jsonl.push('\n');
@@ -369,11 +498,11 @@ fn run_type<T: M>(cx: &mut Ctx, stem: &str, coq_ty: &str, codec: &str, eqb: &str
     for (b, off) in extra_bufs { handle_buf(cx, &mut mterms, b, off); }
     cx.count(stem, "values", vterms.len() as u64);
     cx.count(stem, "buffers", mterms.len() as u64);
-    let shards_v = (vterms.len() / 120).max(1);
+    let shards_v = (vterms.iter().map(|t| t.len()).sum::<usize>() / 150_000).max(1);
     let f = cf::write_shards(&cx.out, &format!("c14_v_{}", stem), IMPORTS, &format!("(vcase {})", coq_ty), &format!("bad_vcases {} {}", codec, eqb), &vterms, shards_v).expect("write");
     cx.files.extend(f);
     if !mterms.is_empty() {
-        let shards_m = (mterms.len() / 250).max(1);
+        let shards_m = (mterms.iter().map(|t| t.len()).sum::<usize>() / 150_000).max(1);
         let f = cf::write_shards(&cx.out, &format!("c14_m_{}", stem), IMPORTS, "mcase", &format!("bad_mcases {}", codec), &mterms, shards_m).expect("write");
         cx.files.extend(f);
     }
@@ -451,7 +580,7 @@ fn hist_bytes<V: Encode>(entries: &[(u64, Option<V>)], len_field: u32) -> Vec<u8
 fn run_hist<V: M + Eq>(cx: &mut Ctx, stem: &str, coq_v: &str, codec_v: &str, eqb_v: &str, gen: impl Fn(&mut Rng) -> V) {
     type H<V> = BlockHistoryCacheData<V>;
     let base = cx.base();
-    let n = if cx.thorough { 300 } else { 60 };
+    let n = if cx.thorough { 300 } else { 36 };
     let mut vterms = Vec::new();
     let mut mterms = Vec::new();
     let mut mid = base + 500_000;
@@ -498,7 +627,7 @@ fn run_hist<V: M + Eq>(cx: &mut Ctx, stem: &str, coq_v: &str, codec_v: &str, eqb
         let mut buf = pre.clone(); buf.extend_from_slice(&enc); buf.extend_from_slice(&rest);
         match try_decode::<H<V>>(&buf, pre.len()) {
             (Outcome::Ok { end, reenc }, Some(d)) => {
-                if reenc != enc || end != pre.len() + enc.len() || d.latest() != entries.last().and_then(|e| e.1.clone()) && !entries.is_empty() {
+                if reenc != enc || end != pre.len() + enc.len() || (!entries.is_empty() && d.latest() != entries.last().and_then(|e| e.1.clone())) {
                     cx.fail(format!("{}: decode(encode(h)) differs from h or ends at {} instead of {}", stem, end, pre.len() + enc.len()), json!({"id": id, "hex": hex::encode(&buf), "offset": pre.len()}));
                 }
             }
@@ -517,10 +646,9 @@ fn run_hist<V: M + Eq>(cx: &mut Ctx, stem: &str, coq_v: &str, codec_v: &str, eqb
             bufs.push((hist_bytes(&dup, dup.len() as u32), 0));
             bufs.push((hist_bytes(&entries, entries.len() as u32 - 1), 0));
             bufs.push((hist_bytes(&entries, entries.len() as u32 + 1), 0));
-            bufs.extend(derived_buffers(&mut r, &enc, 2, 3));
+            bufs.extend(derived_buffers(&mut r, &enc, 1, 2));
             for (b, off) in bufs {
-                let (o, _) = try_decode::<H<V>>(&b, off);
-                *cx.outcomes.entry(match o { Outcome::Ok { .. } => "decode_ok", Outcome::Err => "decode_err", Outcome::Panic => "decode_panic" }).or_default() += 1;
+                let Some(o) = cx.probe(stem, &b, off) else { continue; };
                 mterms.push(mcase_term(mid, &b, off, &o));
                 cx.jsonl.push_str(&json!({"id": mid, "type": stem, "kind": "buffer", "hex": hex::encode(&b), "offset": off}).to_string());
                 cx.jsonl.push('\n');
@@ -540,10 +668,11 @@ fn run_hist<V: M + Eq>(cx: &mut Ctx, stem: &str, coq_v: &str, codec_v: &str, eqb
 // ---------------------------------------------------------------------------------------
 
 pub fn run(out: &Path, seed: u64, thorough: bool) -> Result<(), Box<dyn std::error::Error>> {
-    std::panic::set_hook(Box::new(|_| {}));
+    std::panic::set_hook(Box::new(|i| { if std::env::var("HX_SHOW_PANICS").is_ok() { eprintln!("{}", i); } }));
     let mut cx = Ctx {
         rng: Rng::new(seed), out: out.to_path_buf(), files: vec![], failures: vec![], jsonl: String::new(), evals: 0,
         distinct: Default::default(), per_type: BTreeMap::new(), outcomes: BTreeMap::new(), next_base: 0, samples: vec![], thorough,
+        prober: Prober::spawn(), aborts: vec![], n_aborts: 0,
     };
     let k = if thorough { 8 } else { 1 };
     let n = |base: usize| base * k;
@@ -574,7 +703,7 @@ pub fn run(out: &Path, seed: u64, thorough: bool) -> Result<(), Box<dyn std::err
     // ---- byte strings, strings, options, vectors, tuples
     let mut bytes_vals: Vec<BytesED> = SIZES.iter().map(|s| (0..*s).map(|i| (i * 7 % 256) as u8).collect::<Vec<u8>>().into()).collect();
     bytes_vals.extend((0..n(30)).map(|_| g_bytes(&mut r)));
-    bytes_vals.push(vec![0xABu8; if thorough { 100_000 } else { 5_000 }].into());
+    bytes_vals.push(vec![0xABu8; if thorough { 12_000 } else { 3_000 }].into());
     // length field larger / smaller than the content, by hand
     let bytes_bufs: Vec<(Vec<u8>, usize)> = vec![
         (vec![0, 0, 0, 5, 1, 2, 3], 0), (vec![0, 0, 0, 2, 1, 2, 3], 0), (vec![0, 0, 1, 0, 9], 0), (vec![0, 0, 0], 0), (vec![0, 0, 0, 0], 0),
@@ -599,7 +728,7 @@ pub fn run(out: &Path, seed: u64, thorough: bool) -> Result<(), Box<dyn std::err
     run_type::<Option<AddressED>>(&mut cx, "optaddr", "(option bytes)", "(c_opt c_addr)", "obytes_eqb", (0..n(10)).map(|_| g_opt(&mut r, g_addr)).collect(), vec![]);
     run_type::<Option<String>>(&mut cx, "optstring", "(option bytes)", "(c_opt c_string)", "obytes_eqb", (0..n(20)).map(|_| g_opt(&mut r, g_string)).collect(), vec![]);
     run_type::<Option<BytesED>>(&mut cx, "optbytes", "(option bytes)", "(c_opt c_bytes)", "obytes_eqb", (0..n(12)).map(|_| g_opt(&mut r, g_bytes)).collect(), vec![]);
-    let big_vec: Vec<B256ED> = (0..300).map(|_| g_b256(&mut r)).collect();
+    let big_vec: Vec<B256ED> = (0..if thorough { 300 } else { 100 }).map(|_| g_b256(&mut r)).collect();
     run_type::<Vec<B256ED>>(&mut cx, "vecb256", "(list bytes)", "(c_vec c_b256)", "(list_eqb bytes_eqb)", (0..n(12)).map(|_| g_vec(&mut r, 6, g_b256)).chain([vec![], big_vec]).collect(), vec![(vec![0, 0, 0, 2, 1], 0)]);
     run_type::<Vec<Option<String>>>(&mut cx, "vecoptstring", "(list (option bytes))", "(c_vec (c_opt c_string))", "(list_eqb obytes_eqb)", (0..n(12)).map(|_| g_vec(&mut r, 5, |r| g_opt(r, g_string))).collect(), vec![]);
     run_type::<(AddressED, U64ED)>(&mut cx, "addrnonce", "(bytes * N)", "c_addr_nonce", "(pair_eqb bytes_eqb N.eqb)", (0..n(25)).map(|_| (g_addr(&mut r), g_u64ed(&mut r))).collect(), vec![]);
@@ -637,12 +766,12 @@ pub fn run(out: &Path, seed: u64, thorough: bool) -> Result<(), Box<dyn std::err
         rc_bufs.push((c, 0));
     }
     run_type::<TxReceiptED>(&mut cx, "receipt", "receipt", "c_receipt", "receipt_eqb", rcs.clone(), rc_bufs);
-    let mut blocks: Vec<BlockResponseED> = [0usize, 1, 2, 3, 4, 5, 50, 300].iter().map(|c| g_block(&mut r, *c)).collect();
-    blocks.extend((0..n(15)).map(|_| { let c = r.below(8) as usize; g_block(&mut r, c) }));
+    let mut blocks: Vec<BlockResponseED> = [0usize, 1, 2, 3, 4, 5, 50, if thorough { 300 } else { 120 }].iter().map(|c| g_block(&mut r, *c)).collect();
+    blocks.extend((0..n(10)).map(|_| { let c = r.below(8) as usize; g_block(&mut r, c) }));
     run_type::<BlockResponseED>(&mut cx, "block", "block", &format!("(c_block {})", gas_limit_coq), "block_eqb", blocks.clone(), vec![]);
     let mut traces: Vec<TraceED> = (0..8).map(|m| g_trace(&mut r, 0, 0, m)).collect();
     for d in 1..=5 { for f in 1..=3 { let m = r.below(8); traces.push(g_trace(&mut r, d, f, m)); } }
-    traces.push(g_trace(&mut r, if thorough { 200 } else { 40 }, 1, 7));
+    { let mut t = g_trace(&mut r, if thorough { 120 } else { 40 }, 1, 1); fn strip(t: &mut TraceED) { t.input = vec![1u8].into(); t.output = Vec::<u8>::new().into(); for c in t.calls.iter_mut() { strip(c); } } strip(&mut t); traces.push(t); }
     traces.extend((0..n(10)).map(|_| { let (d, f, m) = (r.below(4), r.below(4), r.below(8)); g_trace(&mut r, d, f, m) }));
     run_type::<TraceED>(&mut cx, "trace", "trace", "c_trace", "trace_eqb", traces.clone(), vec![]);
     // values concatenate: a tuple of records is the concatenation of their encodings
@@ -666,13 +795,13 @@ pub fn run(out: &Path, seed: u64, thorough: bool) -> Result<(), Box<dyn std::err
         let mut vterms = Vec::new();
         let mut mterms = Vec::new();
         let mut mid = base + 500_000;
-        let cnt = if thorough { 60 } else { 14 };
+        let cnt = if thorough { 60 } else { 8 };
         for i in 0..cnt {
             let id = base + i as u64;
-            let ntx = [0usize, 1, 2, 3, 7][i % 5];
+            let ntx = [0usize, 1, 2, 3, 5][i % 5];
             let blk = g_block(&mut r, ntx);
-            let btx: Vec<TxED> = (0..ntx).map(|_| { let m = r.below(16); let mut t = g_tx(&mut r, m); if r.chance(1, 4) { t.to = Some([0u8; 20].into()); } t }).collect();
-            let brc: Vec<TxReceiptED> = (0..if i % 7 == 6 { 0 } else { ntx }).map(|_| { let m = r.below(4); let mut rc = g_receipt(&mut r, m); for l in rc.logs.iter_mut() { l.topics.truncate(4); } rc }).collect();
+            let btx: Vec<TxED> = (0..ntx).map(|_| { let m = r.below(16); let mut t = g_tx(&mut r, m); if r.chance(1, 4) { t.to = Some([0u8; 20].into()); } if t.input.bytes.len() > 40 { t.input = t.input.bytes[..40].to_vec().into(); } t }).collect();
+            let brc: Vec<TxReceiptED> = (0..if i % 7 == 6 { 0 } else { ntx }).map(|_| { let m = r.below(4); let mut rc = g_receipt(&mut r, m); rc.logs.truncate(2); for l in rc.logs.iter_mut() { l.topics.truncate(4); if l.data.bytes.len() > 40 { l.data = l.data.bytes[..40].to_vec().into(); } } rc }).collect();
             let rb = match catch_unwind(AssertUnwindSafe(|| RawBlock::new(blk.clone(), btx.clone(), brc.clone()))) { Ok(x) => x, Err(_) => { cx.fail("rawblock: RawBlock::new panicked".into(), json!({"id": id})); continue; } };
             let enc = rb.encode_vec();
             let (o, d) = try_decode::<RawBlock>(&enc, 0);
@@ -697,24 +826,23 @@ pub fn run(out: &Path, seed: u64, thorough: bool) -> Result<(), Box<dyn std::err
             // buffers whose outcome does not depend on the RLP decoder: truncations (panic), a non-hex
             // character (Err), a doubled "0x" prefix (accepted: trim_start_matches removes both)
             let mut bufs: Vec<(Vec<u8>, usize)> = Vec::new();
-            for c in [0usize, 3, 4, 5, enc.len() / 2, enc.len() - 1] { if c < enc.len() { bufs.push((enc[..c].to_vec(), 0)); } }
+            for c in [3usize, enc.len() / 2, enc.len() - 1] { if c < enc.len() { bufs.push((enc[..c].to_vec(), 0)); } }
             let mut bad = enc.clone(); bad[4 + 2 + (r.below(20) as usize)] = b'g'; bufs.push((bad, 0));
             let mut bad2 = enc.clone(); let l = bad2.len(); if ntx > 0 && !brc.is_empty() { bad2[l - 1] = b'x'; bufs.push((bad2, 0)); }
             let mut dbl = Vec::new(); format!("0x{}", rb.raw_block()).encode(&mut dbl); rb.raw_receipts().encode(&mut dbl); bufs.push((dbl, 0));
             let mut nop = Vec::new(); rb.raw_block().trim_start_matches("0x").to_string().encode(&mut nop); rb.raw_receipts().encode(&mut nop); bufs.push((nop, 0));
             let mut odd = Vec::new(); format!("{}0", rb.raw_block()).encode(&mut odd); rb.raw_receipts().encode(&mut odd); bufs.push((odd, 0));
             for (b, off) in bufs {
-                let (o, _) = try_decode::<RawBlock>(&b, off);
-                *cx.outcomes.entry(match o { Outcome::Ok { .. } => "decode_ok", Outcome::Err => "decode_err", Outcome::Panic => "decode_panic" }).or_default() += 1;
+                let Some(o) = cx.probe("rawblock", &b, off) else { continue; };
                 mterms.push(mcase_term(mid, &b, off, &o));
                 mid += 1; cx.evals += 1;
             }
         }
         cx.count("rawblock", "values", vterms.len() as u64);
         cx.count("rawblock", "buffers", mterms.len() as u64);
-        let f = cf::write_shards(&cx.out, "c14_v_rawblock", IMPORTS, "(vcase (bytes * list bytes))", "bad_vcases rb_codec rb_eqb", &vterms, (vterms.len() / 8).max(1))?;
+        let f = cf::write_shards(&cx.out, "c14_v_rawblock", IMPORTS, "(vcase (bytes * list bytes))", "bad_vcases rb_codec rb_eqb", &vterms, (vterms.len() / 4).max(1))?;
         cx.files.extend(f);
-        let f = cf::write_shards(&cx.out, "c14_m_rawblock", IMPORTS, "mcase", "bad_mcases rb_codec", &mterms, (mterms.len() / 30).max(1))?;
+        let f = cf::write_shards(&cx.out, "c14_m_rawblock", IMPORTS, "mcase", "bad_mcases rb_codec", &mterms, (mterms.len() / 16).max(1))?;
         cx.files.extend(f);
     }
 
@@ -881,6 +1009,7 @@ pub fn run(out: &Path, seed: u64, thorough: bool) -> Result<(), Box<dyn std::err
         "string_key_pairs_where_byte_order_differs_from_string_order": string_violations,
         "values_outside_wf_that_do_not_round_trip": outside_wf,
         "chain_id": chain,
+        "decoder_took_the_process_down": {"count": cx.n_aborts, "what": "a derived buffer whose (misread) Vec length made Vec::with_capacity(length) fail: the process aborts, no panic to catch; decoded in a child process, not compared with the model", "samples": cx.aborts},
         "samples": cx.samples,
         "impl_failures": cx.failures,
     });
